@@ -34,7 +34,7 @@ func (r *c07Ref) eval(s string, i int, top bool) (string, int, bool) {
 			r.unspec = true
 		}
 		if c != '$' {
-			out += string(c)
+			out += s[i : i+1]
 			i++
 			continue
 		}
@@ -302,4 +302,16 @@ func c07Check(tmpl string) {
 	default:
 		vrtAssert("error-type", false)
 	}
+}
+
+// VerifC07Tokens: templates assembled from the grammar's own vocabulary (and a non-ASCII character), checked
+// against the reference evaluator like every other template.
+func VerifC07Tokens() {
+	dict := []string{"$", "{", "}", "${", ":-", "-", ":+", "+", ":?", "?", ":", "A", "_", "x", "$$", " ", "é", "${A", "$A"}
+	n := 1 + vrtChoice("tokens", vrtParam("TOK", 3))
+	tmpl := ""
+	for k := 0; k < n; k++ {
+		tmpl += dict[vrtChoice("token", len(dict))]
+	}
+	c07Check(tmpl)
 }
